@@ -189,6 +189,7 @@ def run(prog: Program, ctx: Ctx) -> None:  # noqa: PLR0912,PLR0915
         '__all__ = ["a"]\n__all__ += ["e", "f"]': ["a", "e", "f"],
         'import o\n__all__ = ["a"]\n__all__ += o.__all__': ["a", "<o.__all__>"],
         '__all__ = ["a"]\n__all__ += ["e"]\n__all__ += ["g"]': ["a", "e", "g"],
+        '__all__ = ["a", "b"]\n__all__ += ["a", "c"]\n__all__ += ["c"]': ["a", "b", "a", "c", "c"],  # list concatenation keeps repeated items
         '__all__ = ["a"]\nother = ["z"]\nother += ["y"]': ["a"],
         '__all__ = ["a"]\nclass K:\n    pass\nK.__all__ = ["q"]': ["a"],
         '__all__ = ["a"]\n__all__ = ["b"]': ["b"],
